@@ -1,5 +1,6 @@
 //! C02 — turmoil::net TCP delivers an intact, ordered byte stream and then
-//! EOF.  DESIGN.md §6 C02.  SimDriver + byte-FIFO model per direction.
+//! EOF.  DESIGN.md §6 C02.  SimDriver + byte-FIFO model per direction and per
+//! connection (sequences of connections between the same two endpoints).
 
 use crate::engine::{replay_as, Ctx, Outcome, Tier};
 use proptest::prelude::*;
@@ -83,8 +84,27 @@ pub struct Scenario {
     /// segments + FIN, then deliver the held messages in this order (indices
     /// into the client's emission order: 0..k-1 data, k = FIN), one per step
     pub manual_order: Option<Vec<usize>>,
+    /// further connections between the same two endpoints, opened one after the
+    /// other by the same client task to the same listener: connection k+1 is
+    /// opened `gap_ms` after the client's endpoint of connection k has finished
+    /// (0 = at once, typically while segments of connection k are still in
+    /// flight).  Every connection is checked against the bytes written on THAT
+    /// connection (each has its own byte pattern).
+    #[serde(default)]
+    pub followups: Vec<Followup>,
 }
 
+#[derive(Clone, Debug, Serialize, Deserialize)]
+pub struct Followup {
+    pub gap_ms: u16,
+    pub client: Side,
+    pub server: Side,
+}
+
+pub const MAX_FOLLOWUPS: usize = 3;
+
+/// `dir` = direction (0 client->server, 1 server->client) + 2 * connection index;
+/// the patterns of two different (connection, direction) streams differ in every byte
 fn byte(dir: usize, i: usize) -> u8 {
     ((i.wrapping_mul(131)) ^ (dir * 17) ^ ((i >> 8).wrapping_mul(7)) ^ 0x5c) as u8
 }
@@ -113,14 +133,25 @@ struct Shared {
     fail: RefCell<Option<(String, String)>>,
     connect_err: RefCell<Option<String>>,
     connected: RefCell<bool>,
+    /// index of this connection in the sequence (0 = first)
+    conn: usize,
+    /// the client's endpoint of this connection has returned (everything dropped)
+    client_finished: RefCell<bool>,
+    /// classification only: when this connection was opened, the previous one still had
+    /// accepted bytes its reader had not consumed (in flight, parked or dropped unread)
+    old_outstanding: RefCell<bool>,
 }
 
 impl Shared {
     fn fail(&self, sig: &str, detail: String) {
         let mut f = self.fail.borrow_mut();
         if f.is_none() {
-            *f = Some((sig.to_string(), detail));
+            *f = Some((sig.to_string(), format!("connection #{}: {detail}", self.conn)));
         }
+    }
+    /// byte-pattern selector of direction `d` on this connection
+    fn pat(&self, d: usize) -> usize {
+        d + 2 * self.conn
     }
 }
 
@@ -136,7 +167,7 @@ async fn writer<W: AsyncWrite + Unpin>(sh: Rc<Shared>, d: usize, mut w: W, side:
     for (i, c) in side.chunks.iter().enumerate() {
         let p = if side.write_pauses.is_empty() { 0 } else { side.write_pauses[i % side.write_pauses.len()] };
         pause(p).await;
-        let data: Vec<u8> = (0..*c as usize).map(|j| byte(d, off + j)).collect();
+        let data: Vec<u8> = (0..*c as usize).map(|j| byte(sh.pat(d), off + j)).collect();
         let mut rest = &data[..];
         while !rest.is_empty() {
             // count a blocked write (Pending on first poll)
@@ -204,10 +235,10 @@ fn check_bytes(sh: &Shared, d: usize, from: usize, got: &[u8], what: &str) -> bo
         return false;
     }
     for (j, b) in got.iter().enumerate() {
-        if *b != byte(d, from + j) {
+        if *b != byte(sh.pat(d), from + j) {
             sh.fail(
                 &format!("{what}-bytes-differ-from-written-stream"),
-                format!("dir {d}: {what} at stream offset {} returned {b:#x}, writer sent {:#x} (chunk of {} at {from})", from + j, byte(d, from + j), got.len()),
+                format!("dir {d}: {what} at stream offset {} returned {b:#x}, writer sent {:#x} (chunk of {} at {from})", from + j, byte(sh.pat(d), from + j), got.len()),
             );
             return false;
         }
@@ -368,7 +399,7 @@ async fn endpoint(sh: Rc<Shared>, stream: TcpStream, side: Side, wd: usize, rd: 
             'outer: for (i, c) in side.chunks.iter().enumerate() {
                 let p = if side.write_pauses.is_empty() { 0 } else { side.write_pauses[i % side.write_pauses.len()] };
                 pause(p).await;
-                let data: Vec<u8> = (0..*c as usize).map(|j| byte(wd, off + j)).collect();
+                let data: Vec<u8> = (0..*c as usize).map(|j| byte(sh.pat(wd), off + j)).collect();
                 let mut rest = &data[..];
                 while !rest.is_empty() {
                     match s.try_write(rest) {
@@ -422,7 +453,16 @@ pub fn run(sc: &Scenario) -> Outcome {
     let lat_min = sc.lat_min.min(sc.lat_max) as u64;
     let lat_max = sc.lat_max.max(sc.lat_min) as u64;
     let cap = sc.capacity.max(1);
-    let sh = Rc::new(Shared::default());
+    // the sequence of connections: (gap before it, client side, server side)
+    let mut conns: Vec<(u16, Side, Side)> = vec![(0, sc.client.clone(), sc.server.clone())];
+    if sc.manual_order.is_none() {
+        for f in sc.followups.iter().take(MAX_FOLLOWUPS) {
+            conns.push((f.gap_ms, f.client.clone(), f.server.clone()));
+        }
+    }
+    let n = conns.len();
+    let shs: Vec<Rc<Shared>> = (0..n).map(|k| Rc::new(Shared { conn: k, ..Default::default() })).collect();
+    let sh = shs[0].clone();
 
     let mut b = turmoil::Builder::new();
     b.tick_duration(Duration::from_millis(tick))
@@ -444,14 +484,14 @@ pub fn run(sc: &Scenario) -> Outcome {
         (false, false) => "0.0.0.0",
         (false, true) => "::",
     };
-    let (client_side, server_side) = (sc.client.clone(), sc.server.clone());
     let peer = sc.peer;
     let v6 = sc.v6;
     let client_fut = {
-        let sh = sh.clone();
+        let shs = shs.clone();
+        let conns = conns.clone();
         move || {
-            let sh = sh.clone();
-            let side = client_side.clone();
+            let shs = shs.clone();
+            let conns = conns.clone();
             async move {
                 // let the listener bind first
                 tokio::time::sleep(Duration::from_millis(1)).await;
@@ -459,31 +499,59 @@ pub fn run(sc: &Scenario) -> Outcome {
                     PeerKind::Remote | PeerKind::SameHostOwnAddr => "s".to_string(),
                     PeerKind::Loopback => if v6 { "::1".to_string() } else { "127.0.0.1".to_string() },
                 };
-                match TcpStream::connect((target.as_str(), port)).await {
-                    Ok(s) => {
-                        *sh.connected.borrow_mut() = true;
-                        endpoint(sh.clone(), s, side, 0, 1).await;
+                // one connection after the other, each opened only when the client's endpoint of
+                // the previous one has returned (all its halves dropped)
+                for (k, (gap, side, _)) in conns.iter().enumerate() {
+                    let sh = shs[k].clone();
+                    if k > 0 {
+                        if *gap > 0 {
+                            tokio::time::sleep(Duration::from_millis(*gap as u64)).await;
+                        }
+                        let outstanding = shs[k - 1].dirs.iter().any(|d| {
+                            let d = d.borrow();
+                            d.accepted > d.consumed
+                        });
+                        *sh.old_outstanding.borrow_mut() = outstanding;
                     }
-                    Err(e) => *sh.connect_err.borrow_mut() = Some(format!("{:?}", e.kind())),
+                    match TcpStream::connect((target.as_str(), port)).await {
+                        Ok(s) => {
+                            *sh.connected.borrow_mut() = true;
+                            endpoint(sh.clone(), s, side.clone(), 0, 1).await;
+                            *sh.client_finished.borrow_mut() = true;
+                        }
+                        Err(e) => {
+                            *sh.connect_err.borrow_mut() = Some(format!("{:?}", e.kind()));
+                            break;
+                        }
+                    }
                 }
             }
         }
     };
     {
-        let sh = sh.clone();
+        let shs = shs.clone();
+        let conns = conns.clone();
         let cf = client_fut.clone();
         let same_host = peer != PeerKind::Remote;
         sim.host("s", move || {
-            let sh = sh.clone();
-            let side = server_side.clone();
+            let shs = shs.clone();
+            let conns = conns.clone();
             let cf = cf.clone();
             async move {
                 let lis = TcpListener::bind((bind_ip, port)).await?;
                 if same_host {
                     tokio::task::spawn_local(cf());
                 }
-                let (s, _) = lis.accept().await?;
-                endpoint(sh.clone(), s, side, 1, 0).await;
+                // the client connects sequentially, so the k-th accept is connection k; earlier
+                // connections keep running in their own tasks while later ones are accepted
+                for (k, (_, _, side)) in conns.iter().enumerate() {
+                    let (s, _) = lis.accept().await?;
+                    if k + 1 == conns.len() {
+                        endpoint(shs[k].clone(), s, side.clone(), 1, 0).await;
+                    } else {
+                        tokio::task::spawn_local(endpoint(shs[k].clone(), s, side.clone(), 1, 0));
+                    }
+                }
                 std::future::pending::<()>().await;
                 Ok(())
             }
@@ -506,7 +574,6 @@ pub fn run(sc: &Scenario) -> Outcome {
         });
     }
 
-    let segs = (sc.client.chunks.len() + sc.server.chunks.len()) as u64;
     // time the slower reader may legitimately need: every progress read can be preceded by the
     // other entries of its (cycled) read plan, each with its pause (+1 ms for zero-length reads)
     let dir_time = |w: &Side, r: &Side| -> u64 {
@@ -518,20 +585,30 @@ pub fn run(sc: &Scenario) -> Outcome {
         let progress_reads = bytes.div_ceil(min_buf.max(1)) + w.chunks.len() as u64 + 3;
         wp + r.reader_delay as u64 + progress_reads * cycle_cost
     };
-    let pauses: u64 = dir_time(&sc.client, &sc.server) + dir_time(&sc.server, &sc.client);
-    let total_bytes: u64 = sc.client.chunks.iter().chain(sc.server.chunks.iter()).map(|c| *c as u64).sum();
+    // the connections run one after the other: the budget is the sum of the per-connection budgets
     let last_fault = sc.faults.iter().map(|f| f.0 as u64).max().unwrap_or(0);
-    let budget = 10 * (segs + 4) * (lat_max / tick + 2) + (pauses * 8 + total_bytes * 2) / tick + last_fault + 50;
+    let mut budget = last_fault + 50;
+    for (gap, c, s) in &conns {
+        let segs = (c.chunks.len() + s.chunks.len()) as u64;
+        let pauses: u64 = dir_time(c, s) + dir_time(s, c);
+        let total_bytes: u64 = c.chunks.iter().chain(s.chunks.iter()).map(|c| *c as u64).sum();
+        budget += 10 * (segs + 4) * (lat_max / tick + 2) + (pauses * 8 + total_bytes * 2 + *gap as u64) / tick;
+    }
 
     let mut partitioned_ever = false;
     let mut held = false;
     let mut hold_used = false;
     let mut steps = 0u64;
     let mut manual_done = false;
-    let all_done = |sh: &Shared| sh.dirs.iter().all(|d| {
-        let d = d.borrow();
-        d.reader_done && d.writer_done
-    });
+    let all_done = |shs: &[Rc<Shared>]| {
+        shs.iter().all(|sh| {
+            sh.dirs.iter().all(|d| {
+                let d = d.borrow();
+                d.reader_done && d.writer_done
+            })
+        })
+    };
+    let first_fail = |shs: &[Rc<Shared>]| shs.iter().find_map(|sh| sh.fail.borrow().clone());
     loop {
         if peer == PeerKind::Remote && sc.manual_order.is_none() {
             for (at, f) in &sc.faults {
@@ -599,70 +676,83 @@ pub fn run(sc: &Scenario) -> Outcome {
             out.fail("step-error", format!("{e}"));
             return out;
         }
-        if sh.fail.borrow().is_some() {
+        if first_fail(&shs).is_some() {
             break;
         }
-        if all_done(&sh) && steps > last_fault {
+        if all_done(&shs) && steps > last_fault {
             break;
         }
         if steps > budget {
             break;
         }
     }
-    if let Some((sig, det)) = sh.fail.borrow().clone() {
+    if let Some((sig, det)) = first_fail(&shs) {
         out.fail(sig, det);
         return out;
     }
-    if let Some(e) = sh.connect_err.borrow().clone() {
+    if let Some((k, e)) = shs.iter().enumerate().find_map(|(k, sh)| sh.connect_err.borrow().clone().map(|e| (k, e))) {
         if !partitioned_ever {
-            out.fail("connect-failed-on-healthy-link", e);
+            out.fail("connect-failed-on-healthy-link", format!("connection #{k}: {e}"));
             return out;
         }
         out.label("connect-failed-under-partition");
         return out;
     }
 
-    // ---------------- delivery half
-    let abortive = sc.client.reader_quits_after.is_some() || sc.server.reader_quits_after.is_some();
-    let delivery_applies = !partitioned_ever && !abortive && !held;
+    // ---------------- delivery half (per connection)
+    let mut any_abortive = false;
     let mut any_bp = false;
     let mut fin_while_full = false;
-    for d in 0..2 {
-        let g = sh.dirs[d].borrow();
-        let wside = if d == 0 { &sc.client } else { &sc.server };
-        let rside = if d == 0 { &sc.server } else { &sc.client };
-        let all_zero_reads = !rside.reads.is_empty() && rside.reads.iter().all(|r| r.0 == 0);
-        if g.would_block + g.write_pending > 0 {
-            any_bp = true;
+    let mut cut_short = false;
+    for (k, (_, cside, sside)) in conns.iter().enumerate() {
+        let sh = &shs[k];
+        let abortive = cside.reader_quits_after.is_some() || sside.reader_quits_after.is_some();
+        any_abortive |= abortive;
+        if !*sh.connected.borrow() {
+            // Never opened.  If every earlier connection had to terminate (delivery half) one of
+            // the checks above has already failed; otherwise an earlier abortive connection, for
+            // which no liveness is promised, is still occupying the client.
+            cut_short = true;
+            continue;
         }
-        if wside.chunks.len() >= cap && rside.reader_delay as u64 > lat_max + 2 * tick {
-            fin_while_full = true;
-        }
-        if delivery_applies && !all_zero_reads {
-            let total: usize = wside.chunks.iter().map(|c| *c as usize).sum();
-            if let Some(e) = &g.writer_error {
-                out.fail("writer-error-on-healthy-link", format!("dir {d}: {e}"));
-                return out;
+        let delivery_applies = !partitioned_ever && !abortive && !held;
+        for d in 0..2 {
+            let g = sh.dirs[d].borrow();
+            let wside = if d == 0 { cside } else { sside };
+            let rside = if d == 0 { sside } else { cside };
+            let all_zero_reads = !rside.reads.is_empty() && rside.reads.iter().all(|r| r.0 == 0);
+            if g.would_block + g.write_pending > 0 {
+                any_bp = true;
             }
-            if let Some(e) = &g.reader_error {
-                out.fail("reader-error-on-healthy-link", format!("dir {d}: {e} after {} of {} bytes", g.consumed, g.accepted));
-                return out;
+            if wside.chunks.len() >= cap && rside.reader_delay as u64 > lat_max + 2 * tick {
+                fin_while_full = true;
             }
-            if !g.writer_done {
-                out.fail("writer-stalled-on-healthy-link", format!("dir {d}: accepted {} of {total} bytes after {steps} steps (budget {budget}); reader consumed {}", g.accepted, g.consumed));
-                return out;
-            }
-            if g.accepted != total {
-                out.fail("writer-accepted-count-mismatch", format!("dir {d}: accepted {} of {total}", g.accepted));
-                return out;
-            }
-            if g.consumed != g.accepted {
-                out.fail("bytes-never-delivered-on-healthy-link", format!("dir {d}: reader consumed {} of {} accepted bytes after {steps} steps (budget {budget})", g.consumed, g.accepted));
-                return out;
-            }
-            if !g.eof {
-                out.fail("eof-never-delivered-after-graceful-close", format!("dir {d}: all {} bytes read but no EOF after {steps} steps (budget {budget}); capacity {cap}, {} segments", g.consumed, g.segments));
-                return out;
+            if delivery_applies && !all_zero_reads {
+                let total: usize = wside.chunks.iter().map(|c| *c as usize).sum();
+                if let Some(e) = &g.writer_error {
+                    out.fail("writer-error-on-healthy-link", format!("connection #{k} dir {d}: {e}"));
+                    return out;
+                }
+                if let Some(e) = &g.reader_error {
+                    out.fail("reader-error-on-healthy-link", format!("connection #{k} dir {d}: {e} after {} of {} bytes", g.consumed, g.accepted));
+                    return out;
+                }
+                if !g.writer_done {
+                    out.fail("writer-stalled-on-healthy-link", format!("connection #{k} dir {d}: accepted {} of {total} bytes after {steps} steps (budget {budget}); reader consumed {}", g.accepted, g.consumed));
+                    return out;
+                }
+                if g.accepted != total {
+                    out.fail("writer-accepted-count-mismatch", format!("connection #{k} dir {d}: accepted {} of {total}", g.accepted));
+                    return out;
+                }
+                if g.consumed != g.accepted {
+                    out.fail("bytes-never-delivered-on-healthy-link", format!("connection #{k} dir {d}: reader consumed {} of {} accepted bytes after {steps} steps (budget {budget})", g.consumed, g.accepted));
+                    return out;
+                }
+                if !g.eof {
+                    out.fail("eof-never-delivered-after-graceful-close", format!("connection #{k} dir {d}: all {} bytes read but no EOF after {steps} steps (budget {budget}); capacity {cap}, {} segments", g.consumed, g.segments));
+                    return out;
+                }
             }
         }
     }
@@ -683,27 +773,65 @@ pub fn run(sc: &Scenario) -> Outcome {
     if partitioned_ever {
         out.label("partition");
     }
-    if abortive {
+    if any_abortive {
         out.label("abortive");
     }
-    if sh.dirs.iter().any(|d| d.borrow().peeks > 0) {
+    if shs.iter().any(|sh| sh.dirs.iter().any(|d| d.borrow().peeks > 0)) {
         out.label("peek");
     }
     if sc.v6 {
         out.label("v6");
     }
-    for s in [&sc.client, &sc.server] {
+    for (_, c, s) in &conns {
+        out.label(format!("{:?}", c.mode));
         out.label(format!("{:?}", s.mode));
     }
-    let reorder_possible = sc.peer == PeerKind::Remote && lat_max > lat_min + tick && (sc.client.chunks.len() >= 2 || sc.server.chunks.len() >= 2);
+    // ---------------- sequences of connections between the same two endpoints
+    let opened = shs.iter().filter(|sh| *sh.connected.borrow()).count();
+    let mut reconnect_outstanding = false;
+    if opened >= 2 {
+        out.label("reconnect");
+        out.label(format!("connections-opened-{opened}"));
+        let mut stale_bytes = 0u64;
+        for k in 1..opened {
+            let prev = &shs[k - 1];
+            let gap = conns[k].0;
+            out.label(if gap == 0 { "reconnect-immediate" } else { "reconnect-after-gap" });
+            if *shs[k].old_outstanding.borrow() {
+                reconnect_outstanding = true;
+                out.label("reconnect-with-old-data-outstanding");
+                // the new connection actually moved data / saw EOF while old segments could still arrive
+                if shs[k].dirs.iter().any(|d| d.borrow().consumed > 0) {
+                    out.label("reconnect-with-old-data-outstanding+new-data-read");
+                }
+                stale_bytes += prev.dirs.iter().map(|d| {
+                    let d = d.borrow();
+                    (d.accepted - d.consumed.min(d.accepted)) as u64
+                }).sum::<u64>();
+            }
+            if prev.dirs[1].borrow().reader_quit {
+                out.label("reconnect-after-client-dropped-early");
+                if prev.dirs[1].borrow().consumed > 0 {
+                    out.label("reconnect-after-client-dropped-mid-stream");
+                }
+            } else if prev.dirs[1].borrow().eof {
+                out.label("reconnect-after-eof");
+            }
+        }
+        out.count("old bytes unconsumed at reconnect", stale_bytes);
+    }
+    if cut_short {
+        out.label("sequence-cut-short");
+    }
+    let reorder_possible = sc.peer == PeerKind::Remote && lat_max > lat_min + tick && conns.iter().any(|(_, c, s)| c.chunks.len() >= 2 || s.chunks.len() >= 2);
     if reorder_possible {
         out.label("reorder-possible");
     }
     if sc.manual_order.is_some() {
         out.label("manual-order");
     }
-    out.count("bytes delivered", sh.dirs.iter().map(|d| d.borrow().consumed as u64).sum());
-    out.nontrivial = reorder_possible || any_bp || fin_while_full || sc.manual_order.as_ref().map(|o| o.len() >= 2).unwrap_or(false);
+    out.count("bytes delivered", shs.iter().map(|sh| sh.dirs.iter().map(|d| d.borrow().consumed as u64).sum::<u64>()).sum());
+    out.nontrivial = reorder_possible || any_bp || fin_while_full || reconnect_outstanding || sc.manual_order.as_ref().map(|o| o.len() >= 2).unwrap_or(false);
     out
 }
 
@@ -729,6 +857,42 @@ fn side_strategy() -> BoxedStrategy<Side> {
         .boxed()
 }
 
+/// Knobs that turn the client side of a connection which is followed by another one into a
+/// short-lived one: it stops reading after `quit` bytes (0 = right after connecting) and drops the
+/// stream, then the next connection is opened.  Whether that drop is graceful (nothing unread
+/// locally) or abortive (unread data => RST) depends on what has arrived by then.
+#[derive(Clone, Debug)]
+struct Handover {
+    gap_ms: u16,
+    /// None: keep the generated client side as it is (usually reads to EOF)
+    early_quit: Option<u32>,
+    /// the server is made to write at least this many chunks on the connection being left
+    server_min_chunks: usize,
+}
+
+fn handover_strategy() -> BoxedStrategy<Handover> {
+    (
+        prop_oneof![5 => Just(0u16), 2 => 1u16..=6, 1 => 7u16..=45],
+        prop_oneof![
+            2 => Just(None),
+            3 => Just(Some(0u32)),
+            2 => (1u32..=12).prop_map(Some),
+        ],
+        0usize..=3,
+    )
+        .prop_map(|(gap_ms, early_quit, server_min_chunks)| Handover { gap_ms, early_quit, server_min_chunks })
+        .boxed()
+}
+
+fn no_double_wholeseq_deadlock(client: &mut Side, server: &mut Side, capacity: usize) {
+    // two sequential whole-stream endpoints that both write more than the
+    // capacity before reading would be a legitimate application deadlock
+    if client.mode == Mode::WholeSeq && server.mode == Mode::WholeSeq {
+        client.chunks.truncate(capacity);
+        server.chunks.truncate(capacity);
+    }
+}
+
 pub fn strategy() -> BoxedStrategy<Scenario> {
     let lat = prop_oneof![
         1 => (0u32..=8).prop_map(|v| (v, v)),
@@ -745,14 +909,37 @@ pub fn strategy() -> BoxedStrategy<Scenario> {
             2 => (2u32..40, 1u32..20).prop_map(|(a, d)| vec![(a, Fault::Hold), (a + d, Fault::Release)]),
             1 => (2u32..40, 1u32..20).prop_map(|(a, d)| vec![(a, Fault::Partition), (a + d, Fault::Repair)]),
         ],
+        // sequences of connections between the same two endpoints
+        prop_oneof![
+            5 => Just(vec![]),
+            5 => proptest::collection::vec((handover_strategy(), side_strategy(), side_strategy()), 1..=MAX_FOLLOWUPS),
+        ],
     )
-        .prop_map(|((tick_ms, (lat_min, lat_max), capacity, v6, seed), peer, listen_localhost, mut client, mut server, faults)| {
-            // two sequential whole-stream endpoints that both write more than the
-            // capacity before reading would be a legitimate application deadlock
-            if client.mode == Mode::WholeSeq && server.mode == Mode::WholeSeq {
-                client.chunks.truncate(capacity);
-                server.chunks.truncate(capacity);
+        .prop_map(|((tick_ms, (lat_min, lat_max), capacity, v6, seed), peer, listen_localhost, client, server, faults, seq)| {
+            let mut sides: Vec<(Side, Side)> = vec![(client, server)];
+            let mut gaps: Vec<u16> = vec![];
+            for (h, c, s) in seq {
+                // shape the connection being left according to the handover
+                let (pc, ps) = sides.last_mut().unwrap();
+                if let Some(q) = h.early_quit {
+                    pc.reader_quits_after = Some(q);
+                    pc.reader_delay = 0;
+                    pc.chunks.truncate(3);
+                    pc.write_pauses.clear();
+                }
+                while ps.chunks.len() < h.server_min_chunks {
+                    let i = ps.chunks.len() as u16;
+                    ps.chunks.push(1 + (q_mix(seed, i) % 9) as u16);
+                }
+                gaps.push(h.gap_ms);
+                sides.push((c, s));
             }
+            for (c, s) in sides.iter_mut() {
+                no_double_wholeseq_deadlock(c, s, capacity);
+            }
+            let mut it = sides.into_iter();
+            let (client, server) = it.next().unwrap();
+            let followups = it.zip(gaps).map(|((client, server), gap_ms)| Followup { gap_ms, client, server }).collect();
             Scenario {
                 tick_ms,
                 lat_min,
@@ -766,9 +953,14 @@ pub fn strategy() -> BoxedStrategy<Scenario> {
                 server,
                 faults,
                 manual_order: None,
+                followups,
             }
         })
         .boxed()
+}
+
+fn q_mix(seed: u64, i: u16) -> u64 {
+    (seed ^ 0x9e37_79b9_7f4a_7c15).wrapping_mul(i as u64 * 2 + 1).rotate_left(17)
 }
 
 fn perms(n: usize) -> Vec<Vec<usize>> {
@@ -829,6 +1021,7 @@ fn exhaustive_space(tier: Tier) -> Vec<Scenario> {
                             },
                             faults: vec![],
                             manual_order: Some(order),
+                            followups: vec![],
                         });
                     }
                 }
@@ -845,7 +1038,15 @@ pub fn fuzz_sanitize(sc: &mut Scenario) -> bool {
     sc.lat_max = sc.lat_min + sc.lat_max % 31;
     sc.capacity = if sc.capacity % 4 == 0 { 64 } else { sc.capacity % 4 };
     sc.manual_order = None;
-    for s in [&mut sc.client, &mut sc.server] {
+    sc.followups.truncate(MAX_FOLLOWUPS);
+    let capacity = sc.capacity;
+    let mut sides: Vec<&mut Side> = vec![&mut sc.client, &mut sc.server];
+    for f in sc.followups.iter_mut() {
+        f.gap_ms %= 46;
+        sides.push(&mut f.client);
+        sides.push(&mut f.server);
+    }
+    for s in sides.iter_mut() {
         s.chunks.truncate(12);
         for c in s.chunks.iter_mut() {
             *c = 1 + *c % 300;
@@ -865,9 +1066,10 @@ pub fn fuzz_sanitize(sc: &mut Scenario) -> bool {
         s.reader_quits_after = s.reader_quits_after.map(|q| q % 40);
         s.reader_delay %= 61;
     }
-    if sc.client.mode == Mode::WholeSeq && sc.server.mode == Mode::WholeSeq {
-        sc.client.chunks.truncate(sc.capacity);
-        sc.server.chunks.truncate(sc.capacity);
+    for pair in sides.chunks_mut(2) {
+        if let [c, s] = pair {
+            no_double_wholeseq_deadlock(c, s, capacity);
+        }
     }
     // faults: keep at most one hold->release or partition->repair pair
     let first = sc.faults.first().cloned();
@@ -891,9 +1093,11 @@ fn check(tier: Tier, seed: u64) -> i32 {
     ctx.exhaustive("delivery-orders", &desc, Box::new(space.into_iter()), &run);
     ctx.random("random", tier.pick(12_000, 160_000), &|| strategy(), &run);
     ctx.finish(
-        "bounded-exhaustive delivery orders of k data segments + FIN (see exhaustive_subspaces) plus random connections: tick, ranged or fixed latency, tcp_capacity 1-4 or 64, v4/v6, remote / same-host / 127.0.0.1 peers, both directions concurrently with generated write chunkings (many 1-byte), write pauses, reader buffer sizes including 0 and 1 with interleaved peeks, slow and late readers, three endpoint modes (into_split, tokio::io::split, whole stream with try_write+writable), shutdown or write-half drop, early reader quit (abortive), hold/release and partition/repair mid-stream. Oracle: byte-FIFO model — every read/peek returns the next bytes of the peer's accepted stream and never more than accepted so far; EOF only after the writer closed and all bytes were consumed; on a healthy link with a graceful close every accepted byte and EOF arrive within a configuration-derived step budget. Non-trivial = segments can overtake each other (remote, max > min + tick, >= 2 segments) or a write blocked / returned WouldBlock or FIN met a full receive queue, or a manual delivery order of >= 2 messages. Distinct by scenario hash.",
+        "bounded-exhaustive delivery orders of k data segments + FIN (see exhaustive_subspaces) plus random sequences of 1-4 connections between the same two endpoints (half of the cases a single connection; otherwise the same client task opens the next connection to the same listener 0-45 ms, mostly 0 ms, after its endpoint of the previous one returned: after reading to EOF, or after dropping the stream right after connect / after a few bytes while the server is still writing, i.e. graceful and abortive early closes with segments of the old connection still in flight; every connection has its own byte pattern and is checked against the bytes written on THAT connection; the server handles the connections concurrently): tick, ranged or fixed latency, tcp_capacity 1-4 or 64, v4/v6, remote / same-host / 127.0.0.1 peers, both directions concurrently with generated write chunkings (many 1-byte), write pauses, reader buffer sizes including 0 and 1 with interleaved peeks, slow and late readers, three endpoint modes (into_split, tokio::io::split, whole stream with try_write+writable), shutdown or write-half drop, early reader quit (abortive), hold/release and partition/repair mid-stream. Oracle: byte-FIFO model — every read/peek returns the next bytes of the peer's accepted stream and never more than accepted so far; EOF only after the writer closed and all bytes were consumed; on a healthy link with a graceful close every accepted byte and EOF arrive within a configuration-derived step budget. Non-trivial = segments can overtake each other (remote, max > min + tick, >= 2 segments) or a write blocked / returned WouldBlock or FIN met a full receive queue, or a connection was opened while the previous one between the same endpoints still had accepted-but-unconsumed bytes, or a manual delivery order of >= 2 messages. Distinct by scenario hash.",
         &[
-            "under partitions or an abortive close only the prefix (safety) half is asserted",
+            "under partitions or an abortive close only the prefix (safety) half is asserted (per connection: an early quit on one connection does not relax the delivery half of the following ones)",
+            "connections of a sequence are opened strictly one after the other by one client task, so the k-th accept is the k-th connect; a connection that is never opened because an earlier abortive one (no liveness promised) still occupies the client is skipped (label sequence-cut-short)",
+            "the default ephemeral port range is used, so on the unchanged tree no two connections of a sequence share a SocketPair",
             "a zero-length read returning Ok(0) is not treated as EOF",
             "two whole-stream sequential endpoints never both write more than the capacity before reading (that would be an application-level deadlock)",
             "liveness is bounded: the step budget is >= 10x the worst schedule the generator can produce",
